@@ -199,16 +199,70 @@ class Doc:
         return self.pos[a] + self.pos[b]
 
 
-def valid_doc(rng, ndecls=None):
-    prog, _ = splgen.well_typed_program(rng, ndecls=ndecls)
+def xref_program(rng):
+    """a well-typed program rich in cross-declaration references: 4-7 declarations of splgen with bodies cut to
+    at most 2 statements, then calls between the user-defined procedures (also to procedures declared later, and
+    recursive ones) whose array arguments are fresh locals declared with the parameter's type name"""
+    prog, env = splgen.well_typed_program(rng, ndecls=rng.randrange(4, 8))
+    prog = [d if d[0] == "type" else ("proc", d[1], d[2], d[3], d[4][:rng.randrange(0, 3)]) for d in prog]
+    type_at = {d[1]: i for i, d in enumerate(prog) if d[0] == "type"}
+    procs = [(i, d) for i, d in enumerate(prog) if d[0] == "proc"]
+    for pi, _ in procs:
+        _, pname, params, vars_, stmts = prog[pi]
+        vars_, stmts = list(vars_), list(stmts)
+        for qi, q in procs:
+            if q[1] == "main" or rng.random() < 0.45:
+                continue
+            local = {n for _, n, _ in params} | {n for n, _ in vars_}
+            if q[1] in local:
+                continue       # shadowed
+            args, new_vars, ok = [], [], True
+            for is_ref, _, te in q[2]:
+                tname = te[1]
+                used = local | {n for n, _ in new_vars} | set(env.types) | {pname}
+                if env.types.get(tname) == "int":
+                    ints = [n for n, t in vars_ if t == ("named", "int")] + [n for r, n, t in params if t == ("named", "int")]
+                    if is_ref or rng.random() < 0.5:
+                        if not ints:
+                            v = splgen._fresh(rng, used | set(env.procs))
+                            new_vars.append((v, ("named", "int")))
+                            ints = [v]
+                        args.append(("var", ("name", rng.choice(ints))))
+                    else:
+                        args.append(("lit", str(rng.randrange(0, 50))))
+                elif tname in type_at and type_at[tname] < pi:
+                    v = splgen._fresh(rng, used | set(env.procs))
+                    new_vars.append((v, ("named", tname)))
+                    args.append(("var", ("name", v)))
+                else:
+                    ok = False
+                    break
+            if ok:
+                vars_ += new_vars
+                stmts.insert(rng.randrange(0, len(stmts) + 1), ("call", q[1], args))
+        prog[pi] = ("proc", pname, params, vars_, stmts)
+    return prog
+
+
+def valid_doc(rng, ndecls=None, xref=False):
+    if xref:
+        prog = xref_program(rng)
+    else:
+        prog, _ = splgen.well_typed_program(rng, ndecls=ndecls)
     prog, variants = shadow_variants(prog, rng)
     tokens = splgen.flatten(prog)
     newline = rng.choice(["\n", "\n", "\r\n"])
     text = splgen.render(tokens, rng, comments=rng.choice([0.0, 0.08, 0.25]), dense=rng.random() < 0.12, newline=newline)
     d = Doc("valid", text)
-    d.prog, d.tokens, d.variants = prog, tokens, variants
+    d.prog, d.tokens, d.variants, d.xref = prog, tokens, variants, xref
     d.spans = locate(text, tokens)
     d.occs, d.infos, d.scope = splscope.analyse(prog)
+    # forward calls: splscope resolves a called name with the procedures declared so far; SPL enters all
+    # declarations before it analyses the bodies, so a call may precede the procedure's declaration
+    pdecl = {o["name"]: o for o in d.occs if o["role"] == "proc_decl" and o["is_decl"]}
+    for o in d.occs:
+        if o["role"] == "call" and o["kind"] is None and o["name"] in pdecl:
+            o.update(kind="proc", bind_tok=pdecl[o["name"]]["tok"], bind_decl=pdecl[o["name"]]["decl"])
     d.occ_at = {o["tok"]: o for o in d.occs}
     return d
 
@@ -306,10 +360,12 @@ def expected(d, method, k):
     same = [x for x in d.occs if binding_key(x) == binding_key(o)]
     if method == "references":
         return sorted(d.span_range(x["tok"]) for x in same if x["tok"] != k)
+    # a predefined entity has no declaration that a rename could cover: renaming its uses alone changes the program
+    # (the implementation's own rule for `int`); prepareRename answers exactly when rename is offered
     if method == "rename":
-        return sorted(d.span_range(x["tok"]) for x in same)
+        return sorted(d.span_range(x["tok"]) for x in same) if not o["builtin"] else None
     if method == "prepareRename":
-        return d.span_range(k)
+        return d.span_range(k) if not o["builtin"] else None
     raise ValueError(method)
 
 
@@ -575,13 +631,15 @@ def same(method, a, b):
 
 def gen_valid_docs(rng, budget):
     """well-typed documents with their positions until sum(len(text) * positions) reaches the budget (the cost of
-    the extracted model is proportional to it): 65% of the budget goes to small documents (1-2 declarations, at
-    most 1800 characters), the rest to larger ones (3-6 declarations).  Documents of up to 2600 characters are
+    the extracted model is proportional to it): 40% of the budget goes to small documents (1-2 declarations, at
+    most 1800 characters), 35% to cross-reference-rich programs (xref_program), the rest to larger ones (3-6
+    declarations).  Documents of up to 2600 characters are
     queried at every column of every identifier, longer ones at first / last / one random column."""
     out, cost = [], 0
     while cost < budget:
-        small = cost < 0.65 * budget
-        d = valid_doc(rng, ndecls=rng.choice([1, 2, 2, 2] if small else [3, 3, 4, 5, 6]))
+        small = cost < 0.4 * budget
+        xref = not small and cost < 0.75 * budget
+        d = valid_doc(rng, ndecls=rng.choice([1, 2, 2, 2] if small else [3, 3, 4, 5, 6]), xref=xref)
         if small and len(d.text) > 1800:
             continue
         d.every_column = len(d.text) <= 2600
@@ -755,6 +813,8 @@ def histogram(camp):
                 h["layout:several-declarations-on-a-line"] += 1
             if not d.every_column:
                 h["doc:valid-sampled-columns"] += 1
+            if d.xref:
+                h["doc:valid-xref"] += 1
             for v in d.variants:
                 h["variant:" + v] += 1
             h["decls"] += len(d.prog)
